@@ -1,6 +1,6 @@
 (** Prop_C17.v -- C17: protocol discipline. *)
 From MW Require Import Base Store Monad Usage Server Websocket Service Findings Inv Obs
-     ProtoFacts StepFacts Corollaries Inst_Params OpFacts HistFacts.
+     ProtoFacts StepFacts Corollaries Inst_Params OpFacts HistFacts HoldInv KfFacts.
 Local Open Scope list_scope.
 
 (** every connection is first sent `welcome` *)
@@ -78,6 +78,38 @@ Theorem C17_frames_only_to_sender : ltac:(let t := type of frames_only_to_sender
 Proof. exact frames_only_to_sender. Qed.
 Check C17_frames_only_to_sender.
 Print Assumptions C17_frames_only_to_sender.
+
+(** in every reachable state a connection that holds a mailbox remembers exactly that
+    id: a well-formed close names (if anything) the held mailbox and acts on it ... *)
+Theorem C17_close_names_held : ltac:(let t := type of close_names_held in exact t).
+Proof. exact close_names_held. Qed.
+Check C17_close_names_held.
+Print Assumptions C17_close_names_held.
+
+(** ... and a close naming something other than what was opened is erroneous (one
+    error frame, nothing changes: C17_erroneous_harmless) *)
+Theorem C17_close_other_refused : ltac:(let t := type of close_other_refused in exact t).
+Proof. exact close_other_refused. Qed.
+Check C17_close_other_refused.
+Print Assumptions C17_close_other_refused.
+
+(** the known-finding triggers are sound: when KF1 fires exactly the IntegrityError happens, nothing is stored ... *)
+Theorem C17_kf1_sound : ltac:(let t := type of kf1_sound in exact t).
+Proof. exact kf1_sound. Qed.
+Check C17_kf1_sound.
+Print Assumptions C17_kf1_sound.
+
+(** ... when KF2 fires the answer is `crowded` (or `reclaimed` for a released side's claim), nothing else ... *)
+Theorem C17_kf2_sound : ltac:(let t := type of kf2_sound in exact t).
+Proof. exact kf2_sound. Qed.
+Check C17_kf2_sound.
+Print Assumptions C17_kf2_sound.
+
+(** ... when KF3 fires exactly the ValueError happens, nothing is stored *)
+Theorem C17_kf3_sound : ltac:(let t := type of kf3_sound in exact t).
+Proof. exact kf3_sound. Qed.
+Check C17_kf3_sound.
+Print Assumptions C17_kf3_sound.
 
 (** KF3 is real in the model: with 1..999 and the drawn value taken, allocate raises *)
 Example C17_kf3_refuted :
